@@ -71,7 +71,7 @@ class Builder(NullCell):
         return self
 
     def store_slice(self, cell_slice: Slice):
-        if len(self.refs) + len(cell_slice.refs) > 4:
+        if len(self.refs) + cell_slice.remaining_refs > 4:
             raise Exception('builder refs overflow')
         self.store_bits(cell_slice.bits)
         for i in range(cell_slice.ref_offset, len(cell_slice.refs)):
